@@ -8,7 +8,7 @@ mod verif_c02 {
     use super::*;
     use crate::verif_common::*;
 
-    const M: usize = 3;
+    const M: usize = 2;
 
     /// arbitrary MultiState with M slots: a symbolic permutation of the slots, the first `live` of them in `ordering`
     /// (in that order), the rest in `free_set`
@@ -20,10 +20,8 @@ mod verif_c02 {
             i += 1;
         }
         let p0: usize = kani::any();
-        let p1: usize = kani::any();
-        let p2: usize = kani::any();
-        kani::assume(p0 < M && p1 < M && p2 < M && p0 != p1 && p0 != p2 && p1 != p2);
-        let perm = [p0, p1, p2];
+        kani::assume(p0 < M);
+        let perm = [p0, 1 - p0];
         let live: usize = kani::any();
         kani::assume(live <= M);
         let mut i = 0;
@@ -38,8 +36,8 @@ mod verif_c02 {
         (ms, perm, live)
     }
 
-    // @harness id=C02 tier=quick timeout=2400 mem=8 checks=rust
-    // @bounds MultiState with 3 slots in any order / any split between live and free; one insert at End / Index(p) / IndexFromBack(p) / After(anchor) / Before(anchor), p in 0..=4: the new bar sits at the documented position, the others keep their relative order, the slot is fresh or recycled, the invariant is preserved
+    // @harness id=C02 tier=quick timeout=2400 mem=16 checks=rust
+    // @bounds MultiState with 2 slots in any order / any split between live and free; one insert at End / Index(p) / IndexFromBack(p) / After(anchor) / Before(anchor), p in 0..=3: the new bar sits at the documented position, the others keep their relative order, the slot is fresh or recycled, the invariant is preserved
     #[kani::proof]
     #[kani::unwind(7)]
     fn c02_insert_step() {
@@ -87,11 +85,11 @@ mod verif_c02 {
         assert!(ms.len() == ms.ordering.len());
         kani::cover!(k == 2 && p > live);
         kani::cover!(k == 3 && live == M);
-        kani::cover!(k == 1 && p == 0 && live == 2);
+        kani::cover!(k == 1 && p == 0 && live == 1);
         std::mem::forget(ms);
     }
 
-    // @harness id=C02 tier=quick timeout=2400 mem=8 checks=rust
+    // @harness id=C02 tier=quick timeout=2400 mem=16 checks=rust
     // @bounds same states; remove_idx(i) for any slot i: a live slot leaves the order (others keep their relative order) and becomes free and reset; removing a free slot changes nothing
     #[kani::proof]
     #[kani::unwind(7)]
